@@ -718,3 +718,118 @@ pub fn lalr_split_grammar(rng: &mut Rng, name: &str) -> Value {
     }
     grammar(name, rules, vec![pattern("\\s")], vec![], vec![])
 }
+
+/// Chains of unit / near-unit productions: `c_i -> c_{i+1} | c_{i+1} y_i | p_i? c_{i+1}` in random
+/// order, the same non-terminal reached several times in one LR closure (once with explicit
+/// look-aheads, once with the look-aheads propagated from the parent item), used both in the middle
+/// and at the end of productions, some links hidden (unit reductions removed by the generator).
+/// Few terminals, so that every token string up to length 4–5 is explored against the oracle.
+pub fn unit_chain_grammar(rng: &mut Rng, name: &str) -> Value {
+    let d = rng.range(2, 4);
+    let names: Vec<String> = (0..=d).map(|i| if i > 0 && i < d && rng.chance(1, 3) { format!("_c{i}") } else { format!("c{i}") }).collect();
+    let suffix = ["y", "z", "v", "k"];
+    let prefix = ["p", "q", "r", "n"];
+    let mut rules: Vec<(String, Value)> = Vec::new();
+    // start: the chain head in the middle and (sometimes) at the end of a production
+    let mut forms = vec![seq(vec![s("("), sym(&names[0]), s("w")])];
+    if rng.chance(1, 2) {
+        forms.push(seq(vec![s("["), sym(&names[0])]));
+    }
+    if rng.chance(1, 3) {
+        forms.push(seq(vec![sym(&names[0]), s("w")]));
+    }
+    let body = choice(forms);
+    rules.push(("start".into(), if rng.chance(1, 2) { rep1(body) } else { body }));
+    for i in 0..d {
+        let next = sym(&names[i + 1]);
+        let mut alts = vec![next.clone()];
+        if rng.chance(3, 4) {
+            alts.push(seq(vec![next.clone(), s(suffix[i])]));
+        }
+        if rng.chance(1, 3) {
+            alts.push(seq(vec![opt(s(prefix[i])), next.clone(), s(suffix[(i + 1) % 4])]));
+        }
+        if rng.chance(1, 4) && i + 2 <= d {
+            // skip a level: the deeper rule is reached along two routes
+            alts.push(seq(vec![sym(&names[i + 2]), s(prefix[(i + 2) % 4])]));
+        }
+        // random order: which alternative the closure worklist meets first matters
+        for k in (1..alts.len()).rev() {
+            let j = rng.below(k + 1);
+            alts.swap(k, j);
+        }
+        rules.push((names[i].clone(), choice(alts)));
+    }
+    let leaf = match rng.below(3) {
+        0 => choice(vec![seq(vec![s("t"), s("u")]), s("t")]),
+        1 => seq(vec![s("t"), s("u")]),
+        _ => seq(vec![s("t"), opt(s("u"))]),
+    };
+    rules.push((names[d].clone(), leaf));
+    grammar(name, rules, vec![pattern("\\s")], vec![], vec![])
+}
+
+/// Grammars in the style of the `lexical_conflicts_due_to_state_merging` fixture, scaled so that
+/// every bitset of the generator that is indexed by terminals crosses its 64-bit word boundaries:
+/// a word token, `m` keywords that each head a conditional form, `m` operator tokens defined as
+/// PATTERNs that spell the same words (so keyword j and operator j conflict lexically and are
+/// valid in two parse states with the same item-set core), and `fill` further string tokens.
+/// Returns the grammar and sentences that put every operator after every kind of operand and every
+/// keyword in front of a conditional.
+pub fn word_operator_grammar(rng: &mut Rng, name: &str, big: bool, sweep: Option<usize>) -> (Value, Vec<String>) {
+    // `sweep = Some(i)`: one or two keyword/operator pairs and a filler count that walks through every
+    // offset modulo 64 (and beyond 64 / 128 terminals), so that each single pair is, for some i, the
+    // only thing that keeps two states apart AND sits at any given bit position of a bitset word
+    let m = match sweep {
+        Some(_) => 1,
+        None => if big { rng.range(64, 72) } else { rng.range(3, 40) },
+    };
+    let fill = match sweep {
+        Some(i) => [0usize, 64, 128][rng.below(3)] + i,
+        None => [0usize, 20, 55, 61, 62, 63, 64, 100, 126, 130][rng.below(10)],
+    };
+    let word = |j: usize| -> String { format!("{}{}", (b'a' + (j / 26) as u8) as char, (b'a' + (j % 26) as u8) as char) + "q" };
+    let mut rules: Vec<(String, Value)> = Vec::new();
+    let mut expr_alts = vec![sym("binary"), sym("number"), sym("parenthesized")];
+    if fill > 0 {
+        expr_alts.push(sym("filler"));
+    }
+    for j in 0..m {
+        let rname = format!("cond{j}");
+        rules.push((rname.clone(), prec("PREC_LEFT", 1, seq(vec![s(&word(j)), sym("parenthesized"), sym("expression")]))));
+        expr_alts.push(sym(&rname));
+    }
+    let mut all: Vec<(String, Value)> = vec![
+        ("program".into(), choice(vec![sym("expression"), seq(vec![s("let"), sym("identifier")])])),
+        ("expression".into(), choice(expr_alts)),
+    ];
+    all.extend(rules);
+    all.push(("binary".into(), prec("PREC_LEFT", 0, seq(vec![sym("expression"), sym("_op"), sym("expression")]))));
+    all.push(("parenthesized".into(), seq(vec![s("("), sym("expression"), s(")")])));
+    all.push(("identifier".into(), pattern("[a-z]+")));
+    all.push(("number".into(), pattern("[0-9]+")));
+    if fill > 0 {
+        all.push(("filler".into(), choice((0..fill).map(|i| s(&format!("F{i}"))).collect())));
+    }
+    all.push(("_op".into(), choice((0..m).map(|j| sym(&format!("op{j}"))).collect())));
+    for j in 0..m {
+        all.push((format!("op{j}"), pattern(&word(j))));
+    }
+    let mut g = grammar(name, all, vec![pattern("\\s")], vec![], vec![]);
+    g["word"] = json!("identifier");
+    let mut docs = vec!["1".to_string(), "(1)".to_string(), "let x".to_string()];
+    for j in 0..m {
+        let w = word(j);
+        let k = word((j + 1) % m);
+        docs.push(format!("(1) {w} 2"));
+        docs.push(format!("1 {w} 2"));
+        docs.push(format!("{w} (1) 2"));
+        docs.push(format!("{w} (1) {k} (2) 3"));
+        docs.push(format!("(({w} (1) 2) {k} (3))"));
+        docs.push(format!("{w} ((1) {k} 2) 3 {w} 4"));
+        if fill > 0 {
+            docs.push(format!("{w} (1) F{}", j % fill));
+        }
+    }
+    (g, docs)
+}
